@@ -21,7 +21,9 @@ func coqMsgAtt(d AttData) string {
 func coqMsgProp(d PropData) string {
 	return fmt.Sprintf("(MProp %s %s %s %s %s %s)", coqU(d.Slot), coqU(d.Pidx), coqBytes(d.Parent), coqBytes(d.State), coqBytes(d.Body), coqBytes(d.Dom))
 }
-func coqMsgGen(d SignData) string { return fmt.Sprintf("(MGen %s %s)", coqBytes(d.Data), coqBytes(d.Dom)) }
+func coqMsgGen(d SignData) string {
+	return fmt.Sprintf("(MGen %s %s)", coqBytes(d.Data), coqBytes(d.Dom))
+}
 
 func coqOptRoot(r []byte) string {
 	if r == nil {
@@ -198,10 +200,41 @@ func cmdSigs(args []string) int {
 				multi.Addrs = append(multi.Addrs, g.addrFor(a))
 				multi.Signs = append(multi.Signs, SignData{Dom: mkDomain(domRandao, byte(i)), Data: rng.Bytes(32)})
 			}
+			// a generic batch in which entries the rules refuse (a slashable domain type) precede entries they
+			// approve, and whose 32-byte data fields are consecutive windows of ONE buffer (an in-process
+			// caller may hand over such slices): every signature must still be by its own account over its own data
+			mixed := &Op{Kind: KMultisign, Client: "client1", IP: "10.0.0.1"}
+			buf := rng.Bytes(32 * n)
+			for i := 0; i < n; i++ {
+				a := fx.Accounts[perm[i]]
+				dom := mkDomain(domRandao, byte(i))
+				if i%3 == 0 {
+					dom = mkDomain(domAttester, byte(i))
+				}
+				mixed.Addrs = append(mixed.Addrs, g.addrFor(a))
+				mixed.Signs = append(mixed.Signs, SignData{Dom: dom, Data: buf[32*i : 32*(i+1)]})
+			}
+			wantData := append([]byte{}, buf...)
 			old := runtime.GOMAXPROCS(p)
 			rec1, err1 := run.execStep(inst, n, p, att)
 			rec2, err2 := run.execStep(inst, n, p, multi)
+			rec3, err3 := run.execStep(inst, n, p, mixed)
 			runtime.GOMAXPROCS(old)
+			if err3 != nil {
+				return 2
+			}
+			if !bytes.Equal(buf, wantData) {
+				monFail = append(monFail, fmt.Sprintf("batch of %d (GOMAXPROCS %d): the signer altered the caller's data buffer", n, p))
+			}
+			for i, o := range rec3.Obs {
+				refused := i%3 == 0
+				if refused && o.SigLen > 0 {
+					monFail = append(monFail, fmt.Sprintf("mixed batch of %d (GOMAXPROCS %d), position %d: a slashable domain type was signed by the generic endpoint", n, p, i))
+				}
+				if !refused && (o.State != core.ResultSucceeded || !o.SigValid) {
+					monFail = append(monFail, fmt.Sprintf("mixed batch of %d (GOMAXPROCS %d), position %d: state %s, signature valid for that position's data and account: %v", n, p, i, o.State, o.SigValid))
+				}
+			}
 			if err1 != nil || err2 != nil {
 				return 2
 			}
